@@ -694,7 +694,7 @@ Global Hint Resolve mt_remove_shards : mt.
 Lemma mt_force_push_loop cx lc : forall ro acc, keeps metas (force_push_loop cx ro lc acc).
 Proof. induction ro as [|oid rest IH]; intros acc; simpl; kt. Qed.
 Global Hint Resolve mt_force_push_loop : mt.
-Lemma mt_reset_meta_duration d m : keeps metas (reset_meta_duration d m).
+Lemma mt_reset_meta_duration cx d m : keeps metas (reset_meta_duration cx d m).
 Proof. unfold reset_meta_duration. kt. Qed.
 Global Hint Resolve mt_reset_meta_duration : mt.
 Lemma mt_refund_order oid : keeps metas (refund_order oid).
@@ -741,7 +741,7 @@ Section OneKey.
   Proof. intros Hk. unfold extend_meta_duration. km. Qed.
   Lemma mk_update_meta cx oid o : k <> o_data o -> keeps (mk k) (update_meta cx oid o).
   Proof. intros Hk. unfold update_meta. km. Qed.
-  Lemma mk_rollback_meta data : k <> data -> keeps (mk k) (rollback_meta data).
+  Lemma mk_rollback_meta cx data : k <> data -> keeps (mk k) (rollback_meta cx data).
   Proof. intros Hk. unfold rollback_meta. km. Qed.
 End OneKey.
 
@@ -826,7 +826,7 @@ Proof.
   unfold cancel_order in H. walk1 H. rewrite HAo, Ho in H.
   assert (HB : mk k s' = mk k sA).
   { refine (keeps_ok (mk k) _ _ _ _ _ H).
-    pose proof (mk_rollback_meta k (o_data o) Hk) as L1. km. }
+    pose proof (mk_rollback_meta k cx (o_data o) Hk) as L1. km. }
   unfold mk in HB. rewrite HB, HAm. reflexivity.
 Qed.
 Print Assumptions cancel_touches_only_order_model.
@@ -903,15 +903,16 @@ Proof.
 Qed.
 
 
-(* the effect of one iteration on the metadata and order tables *)
+(* the effect of one iteration on the metadata and order tables: the listed model [d] is
+   extended, the model named by its latest order gets the new order; no owner changes *)
 Definition renew_eff (sigdid d : string) (s s' : State) : Prop :=
   s' = s \/
   exists meta o nid no,
     metas s !! d = Some meta /\ m_owner meta = sigdid /\ orders s !! m_order meta = Some o /\
     o_data no = o_data o /\ orders s' = <[nid := no]> (orders s) /\
-    (forall k, k <> o_data o -> metas s' !! k = metas s !! k) /\
-    (forall m', metas s' !! o_data o = Some m' ->
-       exists m0, metas s !! o_data o = Some m0 /\ m_owner m' = m_owner m0 /\
+    (forall k, k <> d -> k <> o_data o -> metas s' !! k = metas s !! k) /\
+    (forall k m', metas s' !! k = Some m' ->
+       exists m0, metas s !! k = Some m0 /\ m_owner m' = m_owner m0 /\
                   (m_order m' = m_order m0 \/ m_order m' = nid)).
 
 Lemma renew_one_eff cx m sigdid d s s' : renew_one cx m sigdid d s = Ok tt s' -> renew_eff sigdid d s s'.
@@ -953,10 +954,19 @@ Proof.
   right. exists meta, o, nid. eexists.
   split; [exact Emeta|]. split; [exact Eown|]. split; [exact Eord|].
   split; [|split; [rewrite Ho4, Ho3, Ho2; exact Ho1|]]; [reflexivity|]. split.
-  - intros k Hk. rewrite Hk4, Hk3 by assumption. congruence.
-  - intros m' Hm'. destruct (Hd4 _ Hm') as (m1 & Hm1' & Hor & Hw1). destruct (Hd3 _ Hm1') as (m0' & Hm0' & He & Hw0).
-    exists m0'. split; [congruence|]. split; [congruence|].
-    destruct Hor as [Hor|Hor]; [left; congruence|right; assumption].
+  - intros k Hk1 Hk2. rewrite Hk4, Hk3 by assumption. congruence.
+  - intros k m' Hm'.
+    assert (H3 : forall m1, metas s3 !! k = Some m1 ->
+                   exists m0, metas s !! k = Some m0 /\ m_owner m1 = m_owner m0 /\ m_order m1 = m_order m0).
+    { intros m1 Hm1'. destruct (decide (k = d)) as [->|Hne].
+      - destruct (Hd3 _ Hm1') as (m0' & Hm0' & He & Hw0). exists m0'. split; [congruence|]. split; assumption.
+      - rewrite (Hk3 _ Hne) in Hm1'. exists m1. split; [congruence|]. split; reflexivity. }
+    destruct (decide (k = o_data o)) as [->|Hne].
+    + destruct (Hd4 _ Hm') as (m1 & Hm1' & Hor & Hw1). destruct (H3 _ Hm1') as (m0' & Hm0' & Hw0 & He).
+      exists m0'. split; [exact Hm0'|]. split; [congruence|].
+      destruct Hor as [Hor|Hor]; [left; congruence|right; assumption].
+    + rewrite (Hk4 _ Hne) in Hm'. destruct (H3 _ Hm') as (m0' & Hm0' & Hw0 & He).
+      exists m0'. split; [exact Hm0'|]. split; [exact Hw0|]. left. exact He.
 Qed.
 
 Section RenewInv.
@@ -992,9 +1002,13 @@ Section RenewInv.
       destruct (I3 _ _ Eord) as [Ho0|Ha]; [|exact Ha].
       rewrite Hor in Ho0. rewrite (Hlink _ _ _ Hem0 Ho0).
       exists em0. split; [exact Hem0|]. split; [congruence|exact Hd]. }
+    assert (Hauthd : rauth d).
+    { destruct (J _ _ Emeta) as (em0 & Hem0 & Hw & _).
+      exists em0. split; [exact Hem0|]. split; [congruence|exact Hd]. }
     split; [|split].
     - intros x em Hem. destruct (decide (x = o_data o)) as [->|Hne]; [right; exact Hauth|].
-      rewrite (Hk _ Hne). exact (I1 _ _ Hem).
+      destruct (decide (x = d)) as [->|Hne2]; [right; exact Hauthd|].
+      rewrite (Hk _ Hne2 Hne). exact (I1 _ _ Hem).
     - intros id o' Ho'. rewrite Hos in Ho'. destruct (decide (id = nid)) as [->|Hne].
       + rewrite lookup_insert in Ho'. inversion Ho'; subst o'. right. rewrite Hdata. exact Hauth.
       + rewrite lookup_insert_ne in Ho' by congruence. exact (I3 _ _ Ho').
@@ -1003,17 +1017,14 @@ Section RenewInv.
       { intros mo Hmo o' Ho'. rewrite Hos in Ho'. destruct (decide (mo = nid)) as [->|Hne].
         - rewrite lookup_insert in Ho'. inversion Ho'; subst o'. rewrite Hdata. exact Hauth.
         - rewrite lookup_insert_ne in Ho' by congruence. exact (Hmo _ Ho'). }
-      intros x mm Hmm. destruct (decide (x = o_data o)) as [->|Hne].
-      + destruct (Hx _ Hmm) as (m0 & Hm0 & Hw & Hor).
-        destruct (J _ _ Hm0) as (em0 & Hem0 & Hw0 & Hor0).
-        exists em0. split; [exact Hem0|]. split; [congruence|].
-        destruct Hor as [Hor|Hor].
-        * rewrite Hor. destruct Hor0 as [Hor0|Hor0]; [left; exact Hor0|right; apply Hord; exact Hor0].
-        * right. rewrite Hor. intros o' Ho'. rewrite Hos, lookup_insert in Ho'. inversion Ho'; subst o'.
-          rewrite Hdata. exact Hauth.
-      + rewrite (Hk _ Hne) in Hmm. destruct (J _ _ Hmm) as (em0 & Hem0 & Hw0 & Hor0).
-        exists em0. split; [exact Hem0|]. split; [exact Hw0|].
-        destruct Hor0 as [Hor0|Hor0]; [left; exact Hor0|right; apply Hord; exact Hor0].
+      intros x mm Hmm.
+      destruct (Hx _ _ Hmm) as (m0 & Hm0 & Hw & Hor).
+      destruct (J _ _ Hm0) as (em0 & Hem0 & Hw0 & Hor0).
+      exists em0. split; [exact Hem0|]. split; [congruence|].
+      destruct Hor as [Hor|Hor].
+      + rewrite Hor. destruct Hor0 as [Hor0|Hor0]; [left; exact Hor0|right; apply Hord; exact Hor0].
+      + right. rewrite Hor. intros o' Ho'. rewrite Hos, lookup_insert in Ho'. inversion Ho'; subst o'.
+        rewrite Hdata. exact Hauth.
   Qed.
 
   Lemma renew_loop cx m : forall l s s',
@@ -1061,29 +1072,33 @@ Module Witness.
   Definition meta1 : Meta :=
     mkMeta "did:key:ownerK" "alias" "group" 0 [] "cid" ["c1"] "" 0 "c1" "" 1000 0 [] ["did:key:granteeK"] 4 [0].
   Definition order1 : Order :=
-    mkOrder "gw" "did:key:granteeK" "gw" "cid" 1000 3 1 [0] 1 1 1 0 10 "data1" "c1" PRICE "".
+    mkOrder "gw" "did:key:granteeK" "gw" "cid" 1000 3 1 [0] 1 1 1 0 10 "11111111-1111-1111-1111-111111111111" "c1" PRICE "".
   Definition shard1 : Shard := mkShard 0 2 1 "cid" 0 "" "sp1" 1000 0 [].
   Definition s1 : State :=
     mkState dids ∅ (list_to_map [("sp1", mkPledge 0 0 0 0 1000 1)]) ∅ (Some (mkPool 0 0 0 0 0 0 1000 0)) None ∅ ∅ ∅ np0
             (list_to_map [(0, order1)]) 1 (list_to_map [(0, shard1)]) 1
-            (list_to_map [("data1", meta1)]) ∅ ∅ ∅ ∅ ∅
+            (list_to_map [("11111111-1111-1111-1111-111111111111", meta1)]) ∅ ∅ ∅ ∅ ∅
             (list_to_map [("ownerAddr", 100); ("granteeAddr", 100); ("sp1", 100)]) 300 ∅ ∅ 0.
   Definition rn1 : RenewMsg :=
     {| rn_creator := "gw"; rn_provider := "gw"; rn_owner := "did:key:ownerK"; rn_duration := 3600; rn_timeout := 10;
-       rn_data := ["data1"]; rn_sig := sg |}.
+       rn_data := ["11111111-1111-1111-1111-111111111111"]; rn_sig := sg |}.
 
-  (* an ill-formed state: the latest order of model A names model B *)
+  (* an ill-formed state: the latest order of model A names model B (and was placed by
+     B's owner, so that the model keeper lets it update B) *)
+  Definition dids2 : DidState :=
+    did_empty <| d_pay := list_to_map [("did:key:ownerK", "ownerAddr"); ("did:key:otherK", "otherAddr")] |>.
+  Definition idB : string := "bbbbbbbb-bbbb-bbbb-bbbb-bbbbbbbbbbbb".
   Definition metaA : Meta :=
     mkMeta "did:key:ownerK" "a" "g" 0 [] "cid" ["c1"] "" 0 "c1" "" 1000 0 [] [] 4 [0].
   Definition metaB : Meta :=
     mkMeta "did:key:otherK" "b" "g" 7 [] "cid" ["c1"] "" 0 "c1" "" 10 1 [] [] 4 [7].
   Definition order2 : Order :=
-    mkOrder "gw" "did:key:ownerK" "gw" "cid" 1000 3 1 [] 1 1 1 0 10 "B" "c1" PRICE "".
+    mkOrder "gw" "did:key:otherK" "gw" "cid" 1000 3 1 [] 1 1 1 0 10 idB "c1" PRICE "".
   Definition s2 : State :=
-    mkState dids ∅ ∅ ∅ (Some (mkPool 0 0 0 0 0 0 1000 0)) None ∅ ∅ ∅ np0
+    mkState dids2 ∅ ∅ ∅ (Some (mkPool 0 0 0 0 0 0 1000 0)) None ∅ ∅ ∅ np0
             (list_to_map [(0, order2)]) 1 ∅ 0
-            (list_to_map [("A", metaA); ("B", metaB)]) ∅ ∅ ∅ ∅ ∅
-            (list_to_map [("ownerAddr", 100)]) 100 ∅ ∅ 0.
+            (list_to_map [("A", metaA); (idB, metaB)]) ∅ ∅ ∅ ∅ ∅
+            (list_to_map [("ownerAddr", 100); ("otherAddr", 100)]) 200 ∅ ∅ 0.
   Definition rn2 : RenewMsg :=
     {| rn_creator := "gw"; rn_provider := "gw"; rn_owner := "did:key:ownerK"; rn_duration := 3600; rn_timeout := 10;
        rn_data := ["A"]; rn_sig := sg |}.
@@ -1115,7 +1130,7 @@ Proof.
   - intros mm id H. inversion H. reflexivity.
   - vm_compute. reflexivity.
   - intros d meta o Hm Ho.
-    destruct (decide (d = "data1")) as [->|Hne].
+    destruct (decide (d = "11111111-1111-1111-1111-111111111111")) as [->|Hne].
     + vm_compute in Hm. inversion Hm; subst meta. vm_compute in Ho. inversion Ho; subst o. reflexivity.
     + unfold Witness.s1 in Hm. simpl in Hm. rewrite lookup_insert_ne in Hm by congruence.
       rewrite lookup_empty in Hm. discriminate.
@@ -1123,14 +1138,15 @@ Qed.
 Print Assumptions renew_payer_refuted_detail.
 
 (* The full statement of [renew_authorized] (without [meta_order_link]) is false of the model:
-   on a state where the latest order of a model names ANOTHER model, the other model is
-   extended although it is neither listed nor owned by the signer. *)
+   on a state where the latest order of a listed model names ANOTHER model, the renewal order
+   is appended to that other model (UpdateMeta goes by the order's data id) although it is
+   neither listed nor owned by the signer. (ExtendMetaDuration goes by the listed id.) *)
 Theorem renew_authorized_refuted : exists cx s m s' d data em,
   sig_sane (rn_owner m) (rn_sig m) /\ step cx s (ORenew m) = (s', OutTx COk d) /\
   metas s !! data = Some em /\ metas s' !! data <> Some em /\
   ~ may_admin em (rn_owner m) /\ ~ In data (rn_data m).
 Proof.
-  exists Witness.cx, Witness.s2, Witness.rn2, (fst (step Witness.cx Witness.s2 (ORenew Witness.rn2))), "", "B", Witness.metaB.
+  exists Witness.cx, Witness.s2, Witness.rn2, (fst (step Witness.cx Witness.s2 (ORenew Witness.rn2))), "", Witness.idB, Witness.metaB.
   split; [intros mm id H; inversion H; reflexivity|].
   split; [vm_compute; reflexivity|]. split; [vm_compute; reflexivity|].
   split; [vm_compute; discriminate|].
